@@ -137,11 +137,11 @@ class Rate12Data(BitsInterface):
         if data_type in (Rate12DataTypes.Undefined, Rate12DataTypes.Unconfirmed):
             return Rate12Data(data=bits, packet_type=data_type)
         elif data_type == Rate12DataTypes.Confirmed:
-            return Rate12Data(
+            block: Rate12Data = Rate12Data(
                 dbsn=bits[0:7], crc9=bits[7:16], data=bits[16:96], packet_type=data_type
             )
         elif data_type == Rate12DataTypes.ConfirmedLastBlock:
-            return Rate12Data(
+            block: Rate12Data = Rate12Data(
                 dbsn=bits[0:7],
                 crc9=bits[7:16],
                 data=bits[16:64],
@@ -150,6 +150,10 @@ class Rate12Data(BitsInterface):
             )
         elif data_type == Rate12DataTypes.UnconfirmedLastBlock:
             return Rate12Data(data=bits[0:64], crc32=bits[64:96], packet_type=data_type)
+
+        # crc9 value 0 is (re)generated by the constructor, received crc9 of confirmed block must be judged as received
+        block.crc9_ok = ba2int(bits[7:16][::-1]) == block.calculate_crc9()
+        return block
 
     def convert(self, new_type: Rate12DataTypes) -> "Rate12Data":
         return Rate12Data.from_bits_typed(bits=self.as_bits(), data_type=new_type)
